@@ -14,7 +14,7 @@ CHECKS = {
    text="(file, index) of every error come from one source object at every constructor call; Line/Column/Quote/trace lines only through NewLocation; JApiError/Location built only in package jerr; post-scan errors only through Directive.makeError with the captured trace; scan-time errors get the live stack, innermost first, once; the include-tracer memo builds its value from the live stack only and its key must determine the value (today it does not: recorded finding F16, repair blocked by a pinned test). Whether the index is the right one per message, and index < len(file), are not claimed.",
    design="DESIGN.md §5 C07",
    note=TB + "EOF errors carry index == len(file) and the pinned negative tests assert it: no rule is armed on that.",
-   technique="provenance lint of constructor arguments; who-may-construct and who-may-search-for-line-ends rules; memo key/value dependence analysis with a lossy-function deny list; edge-fact condition on the deferred trace attachment; must-pass-through of the include-trace attachment on go/cfg; located errors are not re-told (type-based); the type blamed by a user type's Check() is asked before the directive is chosen; every path through a trace recorder appends; no write through a lent slice (self-tested matcher); the post-scan constructor rule takes the dispatch handlers as roots"),
+   technique="provenance lint of constructor arguments; who-may-construct and who-may-search-for-line-ends rules; memo key/value dependence analysis with a lossy-function deny list; edge-fact condition on the deferred trace attachment; must-pass-through of the include-trace attachment on go/cfg; located errors are not re-told (type-based); the type blamed by a user type's Check() is asked before the directive is chosen; every path through a trace recorder appends; no write through a lent slice (self-tested matcher); the post-scan constructor rule takes the dispatch handlers as roots and forbids reading core.scanner; the redirect to the blamed type is gated by nothing but the blame; no append to a view of a file's bytes"),
  "C09": dict(
    engine="rules/c09.go (+ c14.go validate-first)",
    category="other",
@@ -35,14 +35,14 @@ CHECKS = {
    text="'Never panics' for the module and everything the export calls: both accessors are a single call of a helper whose deferred recover assigns named results and which contains conversion and encoding; every panic/assertion site below it is listed as covered; no other entry into the converter. Plus: method exhaustiveness of assignOperation, Required=true before a path parameter is appended, response keys are codes or \"default\", post-expansion phases read the expanded directive list. Structural validity of the produced document is produced by the dependency from data and is not claimed.",
    design="DESIGN.md §5 C17",
    note=TB,
-   technique="recover-boundary coverage over the call graph; exhaustiveness by abstract run of the dispatcher per method constant; every-iteration-appends on go/cfg; edge facts evaluated on constants (components iff user types); error-discipline lint over the export; asserted form (T / *T) against the form of literals put behind interfaces; loop-carried flags; dead and shadowing error stores; coverage of counting loops"),
+   technique="recover-boundary coverage over the call graph; exhaustiveness by abstract run of the dispatcher per method constant; every-iteration-appends on go/cfg; edge facts evaluated on constants (components iff user types); error-discipline lint over the export; asserted form (T / *T) against the form of literals put behind interfaces; loop-carried flags; dead and shadowing error stores; coverage of counting loops; template expressions of a path against the segment recogniser; panic values are never nil interfaces; typed nil returned as error"),
  "C04": dict(
    engine="rules/c04.go (+ c03.go dropped-error rule, c16.go dependency-call rule)",
    category="other",
    text="Mechanisms behind 'accepted => serialisable': no compile/load/check error of a schema object is dropped on the build path (two sites are a recorded finding, F15), lazily computed content keeps its failure, ToJson/ToJsonIndent encode the same value, hand-written emitters write only encoder output, pseudo schemas exist only for any/empty, regex bodies are checked when built, path-variable properties bring all their types, pool-backed bytes are copied. The JDoc shape of every schema node is produced by the dependency and is not claimed.",
    design="DESIGN.md §5 C04",
    note=TB + "F15 is listed in known_findings.json (repair attempted, breaks pinned snapshots).",
-   technique="error-discipline lint over the reachable call graph; structural rules on emitters and constructors; emitted key table compared with a frozen reference; required arrays initialised on every path to the encoder; coupling of serialise format and notation at call sites; dead and shadowing error stores on SSA; reads of once-initialised fields behind the Once (dominance); marshal purity; regex example probe"),
+   technique="error-discipline lint over the reachable call graph; structural rules on emitters and constructors; emitted key table compared with a frozen reference; required arrays initialised on every path to the encoder; coupling of serialise format and notation at call sites; dead and shadowing error stores on SSA; reads of once-initialised fields behind the Once (dominance); marshal purity; regex example probe; error-returning dependency calls under the serialisers against those under the build; typed nil returned as error"),
  "C16": dict(
    engine="rules/effects.go (E5 write effects over SSA) + rules/c16.go",
    category="other",
@@ -70,7 +70,7 @@ CHECKS = {
    text="Mechanisms behind 'one fault, rejected at the fault': insert-only-after-pure-presence-test for every name-keyed collection and single-valued slot (closures passed to Update tied to the value tested before), uniqueness sets never reset and never short-cut by 'exists, skip' lookups, every fault-class message still raised on a reachable path, handler errors located on the handler's own directive, no dropped error on the build path, annotation used or rejected per kind, JSIGHT-first before anything is added. Which check fires first for each fault x layout is not claimed.",
    design="DESIGN.md §5 C03",
    note=TB + "Errors of a macro body are relocated to the PASTE line by design (named exception).",
-   technique="dominance of guard tests over insertions (go/cfg), lifted to the callers of helpers, with abstract evaluation of the setter (helpers inlined) as second opinion; silent-exit-under-hit edge facts for declaring functions; liveness of error constants over the call graph; receiver-provenance lint; success returns in front of a check of the function's own statement list; dead and shadowing error stores on SSA; coverage of counting loops and loop-carried flags; may-analysis over go/cfg of error variables that can hold a schema-library error (summaries by fixpoint) against constructors given err.Error(); tail-call checks and early returns in loops"),
+   technique="dominance of guard tests over insertions (go/cfg), lifted to the callers of helpers, with abstract evaluation of the setter (helpers inlined) as second opinion; silent-exit-under-hit edge facts for declaring functions; liveness of error constants over the call graph; receiver-provenance lint; success returns in front of a check of the function's own statement list; dead and shadowing error stores on SSA; coverage of counting loops and loop-carried flags; may-analysis over go/cfg of error variables that can hold a schema-library error (summaries by fixpoint) against constructors given err.Error(); tail-call checks and early returns in loops (a tail call counts only when its callee leaves the catalog/core state alone); a declaration keyed by a name parameter refuses the empty name; insert/resolve sets per phase with constructor marks"),
  "C05": dict(
    engine="rules/c02.go (C05 part) + rules/c03.go",
    category="other",
@@ -84,14 +84,14 @@ CHECKS = {
    text="Absence of the crash and hang mechanisms that are visible in the code, for every input: each explicit panic, unchecked assertion, nil-able field / GetValue result dereference, value used on its error branch, promoted method over a nil embedded interface and constant index reachable from the build entry points is an obligation with a named discharge; recover handlers assign named results; the scanner automaton never underflows and every cycle consumes input; every recursive call-graph component and non-range loop has a verified termination witness; no lock re-entry under map locks; include cycles refused. Running time, and anything inside jsight-schema-core, is not claimed.",
    design="DESIGN.md §5 C01",
    note=TB + "Named exceptions (one symbol + reason each) are listed in the evidence. Reachability treats a function as callable once it is referenced in reachable code.",
-   technique="reachability over the VTA call graph + per-site discharge rules (dominance on go/cfg, table-backed invariants), pushdown analysis of the extracted scanner automaton, SCC termination witnesses (strict structural / visited-set verification, named assumptions for the rest), loop measures on go/cfg, guards evaluated on the constants of an enumeration (embedded-nil kinds, bounds of the dependency's line functions); placement of every recover() call; look-ahead reads of the input bounded by edge facts; presence and must-pass-through of the regex example probe"),
+   technique="reachability over the VTA call graph + per-site discharge rules (dominance on go/cfg, table-backed invariants), pushdown analysis of the extracted scanner automaton, SCC termination witnesses (strict structural / visited-set verification, named assumptions for the rest), loop measures on go/cfg, guards evaluated on the constants of an enumeration (embedded-nil kinds, bounds of the dependency's line functions); placement of every recover() call; look-ahead reads of the input bounded by edge facts; presence and must-pass-through of the regex example probe; no Error/String method formats its own receiver"),
  "C06": dict(
    engine="rules/c06.go",
    category="other",
    text="For the module's own code: every range over a Go map is classified order-insensitive from its body (or is a reasoned named exception), ordered catalog maps iterate their order slice, no nondeterminism source is called, the code is sequential, and no package-level state survives a build. Inside the dependency: which of two faults of one document is reported first is analysed (walks over Go maps from which a fault can be raised, on the dependency's syntax and call graph; two such walks are a known finding, F47); its other nondeterminism sources are listed as observations in the thorough tier.",
    design="DESIGN.md §5 C06",
    note=TB + "An unsummarised call inside a map loop is reported, not assumed harmless, unless all its inputs derive from the element.",
-   technique="effect classification of map-range bodies (callee-named keyed-insert summary); who-may-call lint for nondeterminism sources; package-state write and reference-escape analysis; sorts after map ranges must be total orders on the elements; map walks of the dependency that can raise a fault (syntax + call graph of the pinned version, recomputed in the thorough tier)"),
+   technique="effect classification of map-range bodies (callee-named keyed-insert summary); who-may-call lint for nondeterminism sources; package-state write and reference-escape analysis; sorts after map ranges must be total orders on the elements; map walks of the dependency that can raise a fault (syntax + call graph of the pinned version, recomputed in the thorough tier); hash/maphash in the deny list"),
  "C13": dict(
    engine="E1 scanner automaton + E2 directive tables",
    category="model_checking",
@@ -105,28 +105,28 @@ CHECKS = {
    text="Well-formedness of the lexeme stream (bracketing, extent >= -1, order, positions) decided for all byte strings on a k-bounded pushdown abstraction of the extracted automaton that over-approximates the scanner (data-dependent branches free). Byte-for-byte equality with the rendered document is a runtime round trip and is not claimed.",
    design="DESIGN.md §5 C12",
    note=TB + "Schema/enum body extents are delegated to the dependency's Len() (trusted <= remaining input).",
-   technique="reachability on a pushdown system extracted from source; typestate of lexeme events; CR LF versus LF bisimulation to a bounded horizon on every configuration; reader-end rule on the transition table; begin/end pairing and the end-of-Description predicate folded on constants (abstract evaluation of SSA); position-free use of the scanner's parameter list; no configuration swallows the end of the input with a lexeme open (exceptions named by the bytes that lead there)"),
+   technique="reachability on a pushdown system extracted from source; typestate of lexeme events; CR LF versus LF bisimulation to a bounded horizon on every configuration; reader-end rule on the transition table; begin/end pairing and the end-of-Description predicate folded on constants (abstract evaluation of SSA); position-free use of the scanner's parameter list; no configuration swallows the end of the input with a lexeme open (exceptions named by the bytes that lead there); queue emptiness at the end-of-stream return of Next (must-analysis on go/cfg); the event primitive stores its arguments verbatim; readers of the schema library are called under a recover unless they recover by themselves (dependency SSA)"),
  "C08": dict(
    engine="E1 scanner automaton",
    category="other",
    text="Necessary conditions of layout independence that are visible in the automaton: LF/CR and SP/TAB symmetry per state, comment push/pop/re-feed discipline, blank lines event-free and idempotent, both annotation forms available and '*/' always closing. Catalog equality under rewrites is behavioural and not claimed.",
    design="DESIGN.md §5 C08",
    note=TB + "Description de-indentation and annotation whitespace normalisation are checked only as far as the named rules say.",
-   technique="symmetry and typestate checks on the extracted scanner automaton incl. CR LF versus LF bisimulation to a bounded horizon; interprocedural unquote/normaliser lints; end-of-Description predicate folded for every follower byte; fence symmetry of block comments by shortest paths over the comment states; blank/tab pairing in cut sets and comparisons; '(' transparency by bounded bisimulation; a comment sign where '(' is accepted starts a comment (every configuration); final line break against end of input"),
+   technique="symmetry and typestate checks on the extracted scanner automaton incl. CR LF versus LF bisimulation to a bounded horizon; interprocedural unquote/normaliser lints; end-of-Description predicate folded for every follower byte; fence symmetry of block comments by shortest paths over the comment states; blank/tab pairing in cut sets and comparisons; '(' transparency by bounded bisimulation; a comment sign where '(' is accepted starts a comment (every configuration); final line break against end of input; lines of blanks in the Description normaliser; notes copied from the schema library pass a line-end normaliser"),
  "C10": dict(
    engine="rules/c10.go (AST + go/cfg + go/types)",
    category="other",
    text="Decides the mechanisms PASTE transparency rests on: macro cycles of any length are rejected before expansion (three-colour visited-state discipline verified on the CFG: mark-before-descend, done-on-every-nil-return, on-path test before entering), undefined/unnamed macros are errors, MACRO definitions are removed before expansion, expansion works on reset copies and restores the copy's parent after an explicit context, copies are never identified by coordinates, the ENUM rules of a body are collected on every path before it is expanded, the recursion check visits every sibling, a PASTE after an implicit Description is recognised. Equality with the in-place text for every call site is behavioural and not claimed.",
    design="DESIGN.md §5 C10",
    note=TB + "The rule recognises the visited-state idiom (map from macro name to a named integer state); a different algorithm is reported as undecided/violation rather than accepted.",
-   technique="typestate/pairing and dominance rules over go/cfg; who-may-write rule for the context field; who-may-call rule for coordinate-equality predicates; must-pass-through (rules collected before a body is expanded); abstract run of the expansion walk once per directive kind; who-writes rule for the explicit-context flag"),
+   technique="typestate/pairing and dominance rules over go/cfg; who-may-write rule for the context field; who-may-call rule for coordinate-equality predicates; must-pass-through (rules collected before a body is expanded); abstract run of the expansion walk once per directive kind; who-writes rule for the explicit-context flag; memo keys cover what the value depends on; no coordinate-equality predicate decides anything (package directive included); nothing decided from the root file's text after the scan"),
  "C11": dict(
    engine="E2 directive tables + rules/c11.go + E1",
    category="other",
    text="The context table in the source equals the frozen JSight 0.3 reference pair by pair, and the resolution algorithm has the required control structure (single context cursor, attach only under the allowed lookup, walk-up only from implicit contexts, explicit contexts reject, ')' closes the innermost explicit context, a directive is placed exactly once - as a child or in the root list - on every successful path, the pending directive is finalised before ')' and before the end-of-file test). The verdict for each concrete directive sequence (table x algorithm product) is not enumerated.",
    design="DESIGN.md §5 C11",
    note=TB + "tools/reference/context_table.json is the oracle for the table; it was derived from the pinned tree and reviewed against the language description.",
-   technique="typed-literal table extraction compared with a reference relation; the accessors folded on all pairs of kinds and compared with the literal (abstract evaluation of SSA); edge facts on the open-context walk; dominance rules on processContext; path/term invariants of processContext and closeLastExplicitContext from abstract evaluation of SSA (internal/ssaeval); '(' transparency by bounded bisimulation; abstract run of the '(' handler per directive kind; reachability from the lexeme dispatch to the placement function; who-writes rule for the explicit-context flag; a comment sign where '(' is accepted starts a comment; no pop of an empty step stack"),
+   technique="typed-literal table extraction compared with a reference relation; the accessors folded on all pairs of kinds and compared with the literal (abstract evaluation of SSA); edge facts on the open-context walk; dominance rules on processContext; path/term invariants of processContext and closeLastExplicitContext from abstract evaluation of SSA (internal/ssaeval); '(' transparency by bounded bisimulation; abstract run of the '(' handler per directive kind; reachability from the lexeme dispatch to the placement function; who-writes rule for the explicit-context flag; a comment sign where '(' is accepted starts a comment; no pop of an empty step stack; the URL-child protocol classes passed over for neutral kinds (abstract run per kind); coordinate-equality predicates; post-scan constructor discipline"),
  "C14": dict(
    engine="rules/c14.go + rules/strpred.go (predicate automaton)",
    category="other",
@@ -140,7 +140,7 @@ CHECKS = {
    text="For every directive kind: construction of a Directive from a scanned keyword, the INCLUDE handler's file access and the handler dispatch are each dominated by a by-kind comma-ok lookup of the ban set whose hit branch returns an error; the ban set is written only by WithBannedDirectives into a map made per core and otherwise only looked up. That the message/line equals the expected text for every layout is not claimed.",
    design="DESIGN.md §5 C19",
    note=TB + "Interprocedural guard search is bounded to 3 caller levels in package core.",
-   technique="dominance (must-pass-through) of guard lookups on go/cfg; read/write discipline of one field incl. the literal that creates a core; every lookup of the ban set has a hit branch that returns an error"),
+   technique="dominance (must-pass-through) of guard lookups on go/cfg; read/write discipline of one field incl. the literal that creates a core; every lookup of the ban set has a hit branch that returns an error; every lookup is keyed by the kind of the directive at hand; file and index of an error from one object"),
 }
 
 NOT_APPLICABLE = {
